@@ -437,3 +437,34 @@ def c15(prop, tier):
                         design_ref="DESIGN.md §3 C15",
                         assumptions=["message lengths are enumerated (slice lengths are concrete in the executor); message bytes are symbolic"],
                         outside=["the compression / permutation functions (tens of thousands of table-lookup constraints over a 254-bit field)", "MiMC, Poseidon2", "variable-length variants (paddingFixedWidth, FixedLengthSum)", "Merkle and Fiat-Shamir helpers"])
+
+
+def c13(prop, tier):
+    jobs = [Job("rangecheck-commit", "./std/rangecheck", ["prelude_sym.go", "c13_rangecheck.go"], {"PKGNAME": "rangecheck"}),
+            Job("lookup-blueprint", "./constraint", ["prelude_sym.go", "prelude_elem_sym.go", "c06_sparse.go", "c10_lookup.go"],
+                {"PKGNAME": "constraint", "ELEMTYPE": "U32", "ELEMFR": fr_pkg("tinyfield")}, model="gfp:13", entries=["verifHarness_lookupSequential"])]
+    return run_property(prop, tier, jobs,
+                        title="C13: the real commitChecker.commit against a symbolic integer API with adversarial limbs (hint outputs) and the log-derivative argument replaced by its specification: constraints satisfied => value < 2^bits, for 1-2 checked variables of widths {1,2,3,5,7,8,9,12,16}; the lookup blueprint returns the queried entry and errors outside the table.",
+                        design_ref="DESIGN.md §3 C13",
+                        assumptions=["specification of logderivarg.Build (every query is a table entry): its soundness (Schwartz-Zippel over a committed challenge) is not decided here",
+                                     "values and limbs below 2^40 / 2^20 (larger ones cannot satisfy the table constraint)"],
+                        outside=["soundness of the log-derivative argument and of the commitment (multi-challenge encoding planned)", "bit-decomposition strategy (rangecheck_plain, covered by C05 ToBinary)", "logderivlookup gadget constraints", "widths above 16"])
+
+
+def c03(prop, tier):
+    curves = ["bn254"] if tier == "quick" else CURVES
+    jobs = [Job("filterHeap-" + c, "./backend/groth16/" + c, ["prelude_sym.go", "prelude_fr_sym.go", "c03_filterheap.go"], {"PKGNAME": "groth16", "FRPKG": fr_pkg(c)}) for c in curves]
+    return run_property(prop, tier, jobs,
+                        title="C03 (prover kernel only): filterHeap, which selects the wire values fed to the Krs multi-exponentiation when commitments exist, removes exactly the listed indices (duplicates, any order) and keeps the others in order, for slices of 0..4 elements, offsets 0..3 and 0..3 symbolic indices.",
+                        design_ref="DESIGN.md §3 C03",
+                        assumptions=["caller contract: indices to remove are not below the slice's first index"],
+                        outside=["everything else in Setup / Prove / Verify: FFT/MSM pipelines on 254-761 bit fields, goroutine graphs; 'Prove fails on a non-satisfying assignment' is C06's error half"])
+
+
+def c19(prop, tier):
+    jobs = [Job("topsort", "./internal/utils", ["prelude_sym.go", "c19_topsort.go"], {"PKGNAME": "utils"})]
+    return run_property(prop, tier, jobs,
+                        title="C19 (dependency bookkeeping only): TopologicalSort / InvertPermutation behind GkrInfo.Compile for every acyclic dependency structure with 1..4 wires and 0..2 symbolic inputs per wire.",
+                        design_ref="DESIGN.md §3 C19",
+                        assumptions=["acyclic input (stated as the transitive closure not reaching itself)"],
+                        outside=["the in-circuit GKR verifier (sum-check with hash-derived challenges over a 254-bit field)", "solving / proving hints", "GkrInfo.Compile's instance permutation"])
